@@ -1,6 +1,7 @@
 /-
-C13 — proved counter-examples: clauses of the property that the code as it is does NOT satisfy.
-Each witness is also a protocol line (`witnessLines` in Driver.lean) replayed on the real
+C13 — proved counter-examples: clauses of the property that the code as it is does NOT satisfy
+(plus, for the record, the counter-examples of a clause that was fixed in /repo).
+Each current witness is also a protocol line (`witnessLines` in Driver.lean) replayed on the real
 adminHandler on every run; the oracle of the harness must still flag it (KNOWN-FINDING).
 -/
 import CaddyModel.C13.Lemmas
@@ -15,20 +16,29 @@ def count (_ : Bytes) (_ : Req) (n : Nat) : Nat := n + 1
 /-- default local endpoint on localhost:2019 -/
 def wHandler : Handler := newAdminHandler ⟨none, false, none⟩ exAddr false []
 
+/-- probes for `Props.gate_order_matches_source` -/
+def probeLocal : Handler := newAdminHandler ⟨none, true, none⟩ exAddr false []
+def probeRemote : Handler := newAdminHandler ⟨none, true, some []⟩ exAddr true []
+/-- no client key, websocket upgrade, foreign Host, foreign Origin -/
+def probeAllWrong : Req :=
+  ⟨str "GET", str "evil.com", str "/config/", [str "websocket"], str "http://evil.com", [],
+   ⟨true, str "http", str "evil.com"⟩, emptyUrl, some []⟩
+def probeAllRight : Req :=
+  ⟨str "GET", str "localhost:2019", str "/config/", [], str "http://localhost:2019", [],
+   ⟨true, str "http", str "localhost:2019"⟩, emptyUrl, some []⟩
+
 def wReq (upgrade : List Bytes) : Req :=
   ⟨str "GET", str "localhost:2019", str "/config/", upgrade, [], [], emptyUrl, emptyUrl, none⟩
 
-/-- "websocket upgrades are always refused" fails: `Upgrade: WebSocket` (the check is
-    case-sensitive) reaches the `/config/` handler. -/
-theorem websocket_refused_full_fails :
-    ∃ (h : Handler) (r : Req), IsWebsocketUpgrade r ∧ Served (serveReal count h [] 3 r 0) :=
-  ⟨wHandler, wReq [str "WebSocket"], by decide⟩
-
-/-- … and so does a lower-case `websocket` in a second Upgrade value (only the first is read). -/
-theorem websocket_refused_later_value_full_fails :
-    ∃ (h : Handler) (r : Req), IsWebsocketUpgrade r ∧
-      containsSub (asciiLower (firstUpgrade r)) sWebsocket = false ∧ Served (serveReal count h [] 3 r 0) :=
-  ⟨wHandler, wReq [str "h2c", str "websocket"], by decide⟩
+/-- The two former counter-examples to "websocket upgrades are always refused", as a statement
+    about the OLD test (`wsCheckOld`, the code before /repo cc84cea): `Upgrade: WebSocket` and
+    `Upgrade: h2c` + `Upgrade: websocket` are websocket upgrades, the old gate let them pass, the
+    current gate refuses them.  (Their protocol lines are regression cases in corpus/C13/.) -/
+theorem websocket_old_code_fails :
+    ∀ up ∈ [[str "WebSocket"], [str "h2c", str "websocket"]],
+      IsWebsocketUpgrade (wReq up) ∧ gateOld wHandler (wReq up) = .pass 0 ∧
+      gate wHandler (wReq up) = .refuse .websocket := by
+  decide
 
 /-- `"origins": ["", "localhost:2019"], "enforce_origin": true` -/
 def wCfgEmptyOrigin : AdminCfg :=
